@@ -14,7 +14,9 @@ From Coq Require Import List NArith Bool.
 Import ListNotations.
 Local Open Scope N_scope.
 
-Definition owner := N.      (* OwnerReference (cache.go:26-31), one number per distinct owner *)
+Definition owner := N.      (* OwnerReference (cache.go:26-31): group/kind, UID, name, namespace - one number per
+                               distinct reference; two incarnations of a same-named object (different UID) are
+                               different owners *)
 Definition gvk := N.        (* schema.GroupVersionKind *)
 Definition handler := N.    (* index into cacheSource.handlers (cache_source.go:47) *)
 
